@@ -169,6 +169,53 @@ Proof.
   rewrite !app_nil_r in H. exact H.
 Qed.
 
+(* ---- a keyword directly followed by a type character or punctuation (INPUT$(, PRINT#, KEY(, NEXT:, ...) ----
+   For every keyword of the table the lister inserts no blank between the keyword and one of $ % ! # ( ) , ; :
+   so the two-item line is in the class and round-trips.  This pins the lister's no-space-after set: if one of these
+   characters drops out of it, this proof (not only the generator) fails. *)
+Definition close_punct : list Z := [36; 37; 33; 35; 40; 41; 44; 59; 58].
+
+Lemma close_punct_facts c : In c close_punct ->
+  lmem [c] lst_no_space_after_next = true /\ is_name_char c = false
+  /\ (forall s rout, item_ok kw s rout (IPunct c) [] [] = true).
+Proof.
+  unfold close_punct. intro H. simpl in H.
+  repeat (destruct H as [H|H]; [subst c; repeat split; reflexivity|]). contradiction.
+Qed.
+
+Theorem keyword_punct_canonical k t c n :
+  assoc k kw = Some t -> alpha_word k = true -> not_special_word k = true -> (length k <= 250)%nat ->
+  In c close_punct -> 0 <= n <= 65529 ->
+  CanonLine kw fl_tok fl_str n [IKw k; IPunct c].
+Proof.
+  intros Ha Halpha Hns Hlen Hc Hn.
+  destruct (close_punct_facts c Hc) as [Hset [Hnn Hpun]].
+  unfold CanonLine. split; [exact Hn|].
+  assert (Hkey : has_key k kw = true) by (unfold has_key; rewrite Ha; reflexivity).
+  assert (Ht : tok_of_kw kw k = t) by (unfold tok_of_kw; rewrite Ha; reflexivity).
+  destruct k as [|c0 k']; [discriminate|].
+  split; [|split; [|split]].
+  - constructor.
+    + cbn [item_ok toks text flat_map item_toks item_text app firstn]. rewrite Hkey, Hns, Ht.
+      cbn [alpha_word] in Halpha. rewrite Halpha.
+      assert (Hnil : needs_space_before t [] = false).
+      { unfold needs_space_before. rewrite andb_false_r. reflexivity. }
+      rewrite Hnil. unfold needs_space_after. rewrite Hset. rewrite andb_false_r.
+      cbn [negb andb next_not_name]. rewrite Hnn. rewrite orb_true_r. reflexivity.
+    + exact I.
+    + discriminate.
+    + constructor; [|exact I|discriminate|constructor]. cbn [toks text flat_map]. apply Hpun.
+  - cbn [text flat_map item_text app]. unfold follow_linenum. cbn [drop_blanks].
+    assert (Hl : is_letter c0 = true) by exact Halpha.
+    destruct (letter_facts c0 Hl) as [[_ [_ [Fb _]]] [Fd _]]. rewrite Fb, Fd. reflexivity.
+  - cbn [toks flat_map item_toks]. rewrite Ht.
+    pose proof (entry_shape tkw kw Htab _ _ Ha) as Hs. unfold head_not.
+    destruct t as [|b1 [|b2 [|]]]; try discriminate; cbn [tok_shape] in Hs; cbn [app].
+    + apply Z.ltb_lt in Hs. apply negb_true_iff. apply Z.eqb_neq. lia.
+    + apply andb_true_iff in Hs as [Hs _]. apply Z.ltb_lt in Hs. apply negb_true_iff. apply Z.eqb_neq. lia.
+  - cbn [text flat_map item_text]. rewrite !app_length. cbn [length] in *. lia.
+Qed.
+
 End Roundtrip.
 
 (* ---- for every dialect table of tokens.py ---- *)
@@ -212,3 +259,23 @@ Qed.
 Theorem canon_lineb_sound_all kw fl_tok fl_str n body :
   canon_lineb kw fl_tok fl_str n body = true -> CanonLine kw fl_tok fl_str n body.
 Proof. exact (canon_lineb_sound kw fl_tok fl_str n body). Qed.
+
+(* every keyword of every dialect is short *)
+Definition kw_short (kw : list (list Z * list Z)) : bool := forallb (fun p => (length (fst p) <=? 250)%nat) kw.
+Lemma kw_short_all p : In p tk_syntaxes -> kw_short (snd p) = true.
+Proof.
+  unfold tk_syntaxes. intros [H|[H|[H|[]]]]; subst p; vm_compute; reflexivity.
+Qed.
+
+Theorem keyword_punct_roundtrip_all p fl_tok fl_str k t c n :
+  In p tk_syntaxes -> assoc k (snd p) = Some t -> alpha_word k = true -> not_special_word k = true ->
+  In c close_punct -> 0 <= n <= 65529 ->
+  detokenise_line (fst p) fl_str (tl (line_toks (snd p) n [IKw k; IPunct c])) = Ok (n, line_text n [IKw k; IPunct c])
+  /\ tokenise_line (snd p) fl_tok (line_text n [IKw k; IPunct c]) = Ok (line_toks (snd p) n [IKw k; IPunct c]).
+Proof.
+  intros Hp Ha Hal Hns Hc Hn. pose proof (syntaxes_ok p Hp) as Ht.
+  apply roundtrip_all; [exact Hp|].
+  apply (keyword_punct_canonical (fst p) (snd p) fl_tok fl_str Ht k t c n); try assumption.
+  pose proof (kw_short_all p Hp) as Hs. unfold kw_short in Hs. rewrite forallb_forall in Hs.
+  apply assoc_In in Ha. specialize (Hs _ Ha). cbn [fst] in Hs. apply Nat.leb_le. exact Hs.
+Qed.
